@@ -56,7 +56,6 @@ def check(ctx: Ctx) -> None:
             rep.ob("R14.1", "stop_all() == stop(number of running tasks)", ok, node=r)
     K.r_two_phase(ctx, "R06.1")
     K.r_who_cancel(ctx, "R06.3")
-    S.r_registry_who(ctx, "R03.1")
     S.r_handoff(ctx, "R02.1")
 
 
